@@ -1,11 +1,11 @@
 SPECIFICATION Spec
 CONSTANTS
   Mode = "mc"
-  MaxNodes = 8
+  MaxNodes = 9
   Enabled = {"Module", "Fn", "Head", "Const", "Struct", "Opaque", "Word", "Import", "Param", "Member", "TyPrim", "Int", "Loop"}
   FlagSets <- FlagSets_all
   VarForms <- VarForms_init
-  FnNames = {"f", "g"}
+  FnNames = {"f"}
   ParamNames = {"p", "q"}
   VarNames = {"x"}
   LabelNames = {"l"}
@@ -27,7 +27,7 @@ CONSTANTS
   ShiftOps = {"<<"}
   UnOps = {"-"}
   CmpOps = {"=="}
-  MaxDecls = 3
+  MaxDecls = 2
   MaxParams = 3
   MaxMembers = 3
   MaxStmts = 2
